@@ -42,6 +42,11 @@ func c08Run(s *c08Scn, version, segName string) verdict {
 
 	var held []byte
 
+	// epilogue "two calls in flight": the replies are kept back until both requests are in, then released in either order
+	holdAll := false
+
+	var heldAll [][]byte
+
 	var sess *ncSession
 
 	reqNo := 0
@@ -77,6 +82,12 @@ func c08Run(s *c08Scn, version, segName string) verdict {
 			if held != nil {
 				out = append(out, held)
 				held = nil
+			}
+
+			if holdAll {
+				heldAll = append(heldAll, frame(r.MsgID, k))
+
+				return out
 			}
 
 			if k <= len(s.Policy) {
@@ -209,6 +220,103 @@ func c08Run(s *c08Scn, version, segName string) verdict {
 		case s.Outcome[j] == "timeout" && errClass(oerr) != "timeout":
 			fail(&v, sig+":error-class", "call %d: %v, expected a timeout", j+1, oerr)
 		}
+	}
+
+	if v.OK && s.idx%4 == 3 && !strings.Contains(strings.Join(s.Policy, ","), "werr") {
+		// two goroutines, one call each, the second made while the first is waiting for its reply (the requests go out one after
+		// the other); the server answers both, in either order: each call returns the reply to its own request
+		sess.pipe.Lock()
+		h := held
+		held = nil
+		sess.srv.HoldEcho = false
+		holdAll = true
+		before := len(sess.srv.Requests)
+		sess.pipe.Unlock()
+
+		if h != nil {
+			sess.pipe.Inject(h)
+			sess.pipe.WaitDrained(time.Second)
+			time.Sleep(3 * time.Millisecond)
+		}
+
+		type cres struct {
+			r   *response.NetconfResponse
+			err error
+		}
+
+		resc := [2]chan cres{make(chan cres, 1), make(chan cres, 1)}
+		call := func(i int) {
+			r, e := sess.d.Get("", opoptions.WithTimeoutOps(4*time.Second))
+			resc[i] <- cres{r, e}
+		}
+		waitReqs := func(n int) bool {
+			for t0 := time.Now(); time.Since(t0) < 3*time.Second; time.Sleep(200 * time.Microsecond) {
+				sess.pipe.Lock()
+				got := len(sess.srv.Requests) - before
+				sess.pipe.Unlock()
+
+				if got >= n {
+					return true
+				}
+			}
+
+			return false
+		}
+
+		go call(0)
+
+		ok1 := waitReqs(1)
+
+		go call(1)
+
+		ok2 := waitReqs(2)
+
+		sess.pipe.Lock()
+		reps := heldAll
+		heldAll = nil
+		holdAll = false
+		ids := []int{0, 0}
+
+		if len(sess.srv.Requests)-before >= 2 {
+			ids[0], ids[1] = sess.srv.Requests[before].MsgID, sess.srv.Requests[before+1].MsgID
+		}
+		sess.pipe.Unlock()
+
+		if !ok1 || !ok2 || len(reps) != 2 {
+			fail(&v, "C08:"+version+":two-in-flight:requests", "two calls from two goroutines: the server saw %d of 2 requests", len(reps))
+
+			return v
+		}
+
+		order := []int{0, 1}
+		if s.idx%8 == 7 {
+			order = []int{1, 0}
+		}
+
+		for _, o := range order {
+			sess.pipe.Inject(reps[o])
+			sess.pipe.WaitDrained(time.Second)
+			time.Sleep(2 * time.Millisecond)
+		}
+
+		for i := 0; i < 2 && v.OK; i++ {
+			select {
+			case cr := <-resc[i]:
+				switch {
+				case cr.err != nil:
+					fail(&v, "C08:"+version+":two-in-flight:reply-lost", "two calls in flight (replies released in order %v): call %d (message-id %d): %v although the server answered it in full", order, i+1, ids[i], cr.err)
+				default:
+					m := vRe.FindStringSubmatch(cr.r.Result)
+					if m == nil || m[1] != fmt.Sprint(ids[i]) {
+						fail(&v, "C08:"+version+":two-in-flight:foreign-reply", "two calls in flight: call %d (message-id %d) returned %q", i+1, ids[i], cr.r.Result)
+					}
+				}
+			case <-time.After(8 * time.Second):
+				fail(&v, "C08:"+version+":two-in-flight:hang", "two calls in flight: call %d did not return", i+1)
+			}
+		}
+
+		return v
 	}
 
 	if v.OK && s.idx%4 == 1 && !strings.Contains(strings.Join(s.Policy, ","), "werr") {
